@@ -156,6 +156,20 @@ def eval_expr(e: ast.expr, env: dict[str, Any], oracle: Oracle | None = None) ->
         if isinstance(e, ast.DictComp):
             return dict(out)
         return set(out) if isinstance(e, ast.SetComp) else out
+    if isinstance(e, ast.Call) and isinstance(e.func, ast.Attribute) and e.func.attr == "join" and len(e.args) == 1 and not e.keywords:
+        recv = eval_expr(e.func.value, env, oracle)
+        if isinstance(recv, (str, bytes)):
+            items = eval_expr(e.args[0], env, oracle)
+            try:
+                return recv.join(items)
+            except TypeError:
+                raise TypeRaised("TypeError")
+    if isinstance(e, ast.Call) and isinstance(e.func, ast.Attribute) and e.func.attr in ("split", "strip") and len(e.args) <= 1 and not e.keywords:
+        recv = eval_expr(e.func.value, env, oracle)
+        if isinstance(recv, (str, bytes)):
+            return getattr(recv, e.func.attr)(*[eval_expr(a, env, oracle) for a in e.args])
+    if isinstance(e, ast.Call) and isinstance(e.func, ast.Name) and e.func.id in ("all", "any") and len(e.args) == 1 and not e.keywords:
+        return {"all": all, "any": any}[e.func.id](eval_expr(e.args[0], env, oracle))
     if isinstance(e, ast.Call) and isinstance(e.func, ast.Attribute) and e.func.attr in ("items", "keys", "values") and not e.args and not e.keywords:
         recv = eval_expr(e.func.value, env, oracle)
         if isinstance(recv, dict):
